@@ -4,7 +4,8 @@ Model of the two validators every message passes before the encoder writes it:
 
 * `protoValidate` — `proto.Validator.ValidateMessage` / `ValidateMessageDefinition` (/repo/proto/validator.go):
   the protocol-version gate (under exactly version 1.0: no developer fields, no base type added after `byte`).
-  A field with a nil `FieldBase` is dereferenced there: explicit outcome `.panic`.
+  A field with a nil `FieldBase` is skipped there (since the repair of F11; before it the nil pointer was
+  dereferenced). The outcome `.panic` stays in `Res` so that "never panics" remains a statement that is proved.
 * `validate` — `encoder.messageValidator.Validate` (/repo/encoder/validator.go:104-262): drops expanded
   fields and (unless asked to preserve them) fields with invalid values, restores scaled float64 values,
   checks type alignment / UTF-8 / size ≤ 255 / at most 255 (developer) fields, keeps track of the
@@ -39,7 +40,7 @@ def protoFields : List Field → Res Unit
   | [] => .ok ()
   | f :: fs =>
     match f.base with
-    | none => .panic                                     -- nil pointer dereference of `field.BaseType`
+    | none => protoFields fs                             -- `if field.FieldBase == nil { continue }` (fix of F11)
     | some b => if afterV1 b.baseType then .err .protocolViolation else protoFields fs
 
 /-- `(*Validator).ValidateMessage(mesg)` for `ProtocolVersion = ver` -/
